@@ -706,6 +706,47 @@ def code_prelude():
         return []
 
 # ---------------------------------------------------------------------------
+# grammar tie: where can a typename / groupname occur at all?
+# ---------------------------------------------------------------------------
+
+EXPECTED_NAME_SITES = {"typename": ["member_key", "rule", "type2"], "groupname": ["group_entry", "rule", "type2"],
+                       "id": ["bareword", "generic_param", "groupname", "typename"]}
+
+def grammar_name_sites():
+    """rules of /repo/cddl.pest whose right-hand side mentions typename / groupname / id.
+    The position catalogue above was written against exactly these sites: a grammar change that adds a
+    site is reported (the catalogue would not place a reference there)."""
+    import re
+    src = open(os.path.join(common.REPO, "cddl.pest"), encoding="utf-8").read()
+    out, i, n = [], 0, len(src)
+    while i < n:                                  # blank out string literals and // comments
+        ch = src[i]
+        if ch == '"':
+            j = i + 1
+            while j < n and src[j] != '"':
+                j += 2 if src[j] == "\\" else 1
+            out.append('""')
+            i = j + 1
+        elif ch == "'" and i + 2 < n and src[i + 2] == "'":
+            out.append("''")
+            i += 3
+        elif src.startswith("//", i):
+            while i < n and src[i] != "\n":
+                i += 1
+        else:
+            out.append(ch)
+            i += 1
+    clean = "".join(out)
+    heads = list(re.finditer(r"^([A-Za-z_][A-Za-z0-9_]*)\s*=\s*[_@$!]?\s*\{", clean, flags=re.M))
+    sites = {k: [] for k in EXPECTED_NAME_SITES}
+    for k, m in enumerate(heads):
+        body = clean[m.end():heads[k + 1].start() if k + 1 < len(heads) else len(clean)]
+        for name in sites:
+            if re.search(r"(?<![A-Za-z0-9_])%s(?![A-Za-z0-9_])" % name, body):
+                sites[name].append(m.group(1))
+    return {k: sorted(v) for k, v in sites.items()}
+
+# ---------------------------------------------------------------------------
 # running
 # ---------------------------------------------------------------------------
 
@@ -725,14 +766,16 @@ def judge(c, impl_line, model_line):
     want_plain, want_checked, want_spec = c.expect(mp[0]), c.expect(mp[1]), c.expect(mp[2])
     if ip[0] != want_plain:
         return "violation", "cddl_from_str: implementation `%s`, model (duplicate check, theorem dup_spec) `%s`" % (ip[0], want_plain)
-    if ip[1] == want_checked:
-        if want_checked != want_spec:
-            if mp[3] != "1":
-                return "violation", "internal: model differs from specification outside the classified class (contradicts refcheck_spec_partial)"
-            return "known", "CDDL::from_slice `%s` (as the faithful model), specification `%s`" % (ip[1], want_spec)
-        return "ok", ""
     if ip[1] == want_spec:
-        return "repaired", "CDDL::from_slice `%s` agrees with the specification, not with the model of the current code `%s`" % (ip[1], want_checked)
+        if want_checked != want_spec:
+            return "repaired", "CDDL::from_slice `%s` agrees with the specification, not with the model of the current code `%s`" % (ip[1], want_checked)
+        return "ok", ""
+    if ip[1] == want_checked and mp[3] == "1":
+        return "known", "CDDL::from_slice `%s` (as the faithful model), specification `%s`" % (ip[1], want_spec)
+    if ip[1] == want_checked:
+        return "violation", ("CDDL::from_slice: implementation `%s`, specification `%s`; the model of the current code agrees with the "
+                             "implementation and the document is outside the classified class (the code's prelude table differs from "
+                             "RFC 8610 Appendix D: theorem prelude_table_ok no longer holds)") % (ip[1], want_spec)
     return "violation", "CDDL::from_slice: implementation `%s`, model `%s`, specification `%s`" % (ip[1], want_checked, want_spec)
 
 def own_findings():
@@ -820,9 +863,9 @@ def run(tier, seed):
         res.notes.append("%d documents of the socket-shadow class are now decided as the specification says (finding repaired?)" % repaired)
 
     # vm_compute slice: guards extraction
-    sl_idx = sorted(rng.sample(range(n_fixed, len(cases)), min(110, len(cases) - n_fixed)) +
+    sl_idx = sorted(rng.sample(range(n_fixed, len(cases)), min(140, len(cases) - n_fixed)) +
                     rng.sample(range(0, n_fixed), 40))
-    sl = [cases[i] for i in sl_idx if len(cases[i].text) < 1500][:150]
+    sl = [cases[i] for i in sl_idx if len(cases[i].text) < 700][:120]
     try:
         vm = common.vm_compute_slice(PROP, SLICE_PRE, [c.gallina() for c in sl])
         orc_sl = common.run_tool(orc, [c.model_line() for c in sl], shards=1)
@@ -833,6 +876,14 @@ def run(tier, seed):
         if proved:
             res.violation("vm_compute slice failed: %s" % str(e)[-400:], {"kind": "vm-slice"}, no_input=True)
         sl = []
+    try:
+        sites = grammar_name_sites()
+    except OSError as e:
+        sites = {"error": str(e)}
+    if sites != EXPECTED_NAME_SITES and not res.violations:
+        res.violation("cddl.pest: the rules in which typename / groupname / id occur changed: %r (expected %r); the position "
+                      "catalogue and the abstraction of documents were written against the expected sites" % (sites, EXPECTED_NAME_SITES),
+                      {"kind": "grammar-sites", "found": sites, "expected": EXPECTED_NAME_SITES}, no_input=True)
     if not proved and not res.violations:
         res.violation(res.proof_broken, {"kind": "proof-obligation", "detail": res.proof_broken}, no_input=True)
     n_err = sum(v for k, v in verdicts.items() if k != "OK")
@@ -856,6 +907,7 @@ def run(tier, seed):
         "unexpected_syntax_errors": syntax_unexpected,
         "vm_compute_slice": len(sl),
         "prelude_names_in_code": len(code_names),
+        "grammar_name_sites": sites,
         "samples": [{"class": c.cls, "text": c.text.decode(), "impl": a, "model": b}
                     for c, a, b in list(zip(cases, impl, model))[n_fixed:n_fixed + 6]],
     })
